@@ -91,6 +91,10 @@ class C08(DevProp):
                     if rng.random() < 0.25:
                         act = rng.choice(list(ACT.values()))
                         ev += [k(act, 1), k(act, 0)]
+                    elif rng.random() < 0.08:      # up/down chord: the pair reset takes a code path of its own
+                        up, down = rng.choice([(59, 60), (61, 62), (63, 64)])
+                        first, second = (up, down) if rng.random() < 0.5 else (down, up)
+                        ev += [k(first, 1), k(second, 1), k(first, 0), k(second, 0)]
                     if rng.random() < 0.1:
                         ev.append(a(agen.ABS_Y, rng.choice([-128, 0, 127, 60, -60])))
             ev += [a(code, zr["Mid"][0]), a(agen.ABS_Y, 0)]
